@@ -45,11 +45,11 @@ def bulkRules : List Discharge := [
 
 def tBase : List FileTable := [
   ⟨"base/cell.rs", [
-    ⟨"Cell::new", [
+    ⟨"Cell::new", 149412872181302, [
       ex .panic "panic ! ( \"positions and numbers should be the same length\" )" 1 pWellFormed
         "the constructor's own length check; internal callers (transform_cell, primitive_cell_from_transformation, standardize_and_symmetrize_cell) push / allocate both vectors with the same length"
     ]⟩,
-    ⟨"orbits_from_permutations", [
+    ⟨"orbits_from_permutations", 77661738891711, [
       ex .call "uf . union ( i , permutation . apply ( i ) )" 1
         (.callerValidated "primitive_cell_from_transformation, orbits_in_cell (assign_wyckoffs, MoyoDataset::new, MoyoMagneticDataset::new)")
         "uf has num_atoms keys, i < num_atoms by the loop, and every caller passes permutations computed by solve_correspondence for a cell with exactly num_atoms sites, whose mapping entries are kd-tree site indices < num_atoms",
@@ -61,12 +61,12 @@ def tBase : List FileTable := [
     ]⟩
   ]⟩,
   ⟨"base/lattice.rs", [
-    ⟨"Lattice::from_basis", [
+    ⟨"Lattice::from_basis", 136481915483581, [
       ex .call "OMatrix :: from_rows ( & [ RowVector3 :: from ( basis [ 0 ] ) , RowVector3 :: from ( basis [ 1 ] ) , RowVector3 :: from ( basis [ 2 ] ) , ] )" 1
         (.fixedSize "three RowVector3 rows for the Matrix3<f64> that Lattice::new takes")
         "from_rows panics only when the number of rows differs from the static row count 3"
     ]⟩,
-    ⟨"Lattice::lattice_constant", [
+    ⟨"Lattice::lattice_constant", 111668194518029, [
       ex .index "g [ ( 0 , 0 ) ]" 1 .matrixLiteralIndex "g = self.metric_tensor() : Matrix3<f64>",
       ex .index "g [ ( 1 , 1 ) ]" 1 .matrixLiteralIndex "g : Matrix3<f64>",
       ex .index "g [ ( 2 , 2 ) ]" 1 .matrixLiteralIndex "g : Matrix3<f64>",
@@ -79,39 +79,39 @@ def tBase : List FileTable := [
     ]⟩
   ]⟩,
   ⟨"base/magnetic_cell.rs", [
-    ⟨"MagneticCell::from_cell", [
+    ⟨"MagneticCell::from_cell", 112235483532080, [
       ex .panic "panic ! ( \"positions and magnetic_moments should be the same length\" )" 1 pWellFormed
         "the constructor's own length check; internal callers (transform_magnetic_cell, primitive_magnetic_cell_from_transformation, new_from_ref_cell) build one moment per site"
     ]⟩
   ]⟩,
   ⟨"base/operation.rs", [
-    ⟨"Operation::cartesian_rotation", [
+    ⟨"Operation::cartesian_rotation", 160423541708002, [
       ex .unwrap "lattice . basis . try_inverse ( ) . unwrap ( )" 1 pNonSingular
         "nalgebra's 3x3 try_inverse returns None only when the computed determinant is exactly 0.0; callers pass the lattice of the reduced primitive (magnetic) cell, a unimodular / index-n re-basing of the input lattice (LOW CONFIDENCE for |entries| < ~1e-108 where the determinant underflows)"
     ]⟩,
-    ⟨"Operation::fmt", [
+    ⟨"Operation::fmt", 77682558569634, [
       ex .index "xyz [ 0 ]" 1 (.fixedSize "xyz = (0..3).map(..).collect::<Vec<_>>() has exactly 3 elements") "literal below 3",
       ex .index "xyz [ 1 ]" 1 (.fixedSize "xyz has exactly 3 elements") "literal below 3",
       ex .index "xyz [ 2 ]" 1 (.fixedSize "xyz has exactly 3 elements") "literal below 3"
     ]⟩,
-    ⟨"traverse", [
+    ⟨"traverse", 52601335803821, [
       ex .unwrap "queue . pop_front ( ) . unwrap ( )" 1 (.checkedByGuard "while !queue.is_empty()") "first statement of the loop body"
     ]⟩
   ]⟩,
   ⟨"base/permutation.rs", [
-    ⟨"Permutation::apply", [
+    ⟨"Permutation::apply", 249953521032595, [
       ex .index "self . mapping [ i ]" 1
         (.callerValidated "Permutation::mul, orbits_from_permutations, solve.rs, primitive_cell.rs, primitive_symmetry_search.rs, standardize.rs, magnetic_standardize.rs")
         "every call inside the crate passes i < size(): loops over 0..num_atoms of the cell the permutation was computed for, or a value of another permutation of the same size (public method with an unchecked precondition: not one of C08's entry points)"
     ]⟩,
-    ⟨"Permutation::inverse", [
+    ⟨"Permutation::inverse", 274775359051122, [
       ex .index "inv [ j ]" 1
         (.callerValidated "solve_correspondence / solve_correspondence_naive / identity / mul / inverse are the only producers of mappings")
         "inv has size() entries and j is an entry of mapping; every mapping built in the crate has entries < its length (kd-tree site indices, 0..size, compositions), also when it is not a bijection"
     ]⟩
   ]⟩,
   ⟨"base/transformation.rs", [
-    ⟨"UnimodularTransformation::new", [
+    ⟨"UnimodularTransformation::new", 137728720298923, [
       ex .panic "panic ! ( \"Determinant of transformation matrix should be one.\" )" 1
         (.callerValidated "integral_normalizer, SpaceGroup::new, match_origin_shift, find_conjugator_type4, PrimitiveCell::new, PrimitiveMagneticCell::new, standardize_triclinic_cell, UNIMODULAR3_RANGE1, inverse, mul")
         "every caller passes a matrix of determinant +1: iter_unimodular_trans_mat and UNIMODULAR3_RANGE1 filter det == 1; point_group.prim_trans_mat (det 1 by match_with_cubic_point_group's check / iter_unimodular_trans_mat / identity) times corrections filtered to det 1; minkowski / niggli trans_mat are products of elementary matrices with the sign fixed to +; linear_inv and products of unimodular matrices",
@@ -119,7 +119,7 @@ def tBase : List FileTable := [
         (.checkedByGuard "if det != 1 { panic!(..) } just before")
         "an integer matrix whose rounded f64 determinant is 1 has a non-zero computed determinant (small integer entries: the f64 determinant is exact)"
     ]⟩,
-    ⟨"Transformation::new", [
+    ⟨"Transformation::new", 274754182329960, [
       ex .unwrap "linear . map ( | e | e as f64 ) . try_inverse ( ) . unwrap ( )" 1
         (.callerValidated "HallSymbol / MagneticHallSymbol (centering.linear()), operations_in_cell, magnetic_operations_in_magnetic_cell, primitive_cell_from_transformation, standardize_and_symmetrize_cell, standardize_monoclinic_conv_cell")
         "every caller passes a matrix of determinant >= 1: Centering::linear (det 1,2,2,2,2,3,4), prim_cell.linear (unimodular x trans_mat x unimodular with det trans_mat == number of translations, checked in transformation_matrix_from_translations), products unimodular x centering x unimodular",
@@ -127,14 +127,14 @@ def tBase : List FileTable := [
         (.callerValidated "same callers as the unwrap above")
         "determinant >= 1 at every call site (see the record above)"
     ]⟩,
-    ⟨"Transformation::transform_cell", [
+    ⟨"Transformation::transform_cell", 195037505928051, [
       ex .unwrap "snf . l . map ( | e | e as f64 ) . try_inverse ( ) . unwrap ( )" 1 (.invariant "Moyo.C15.snf_unimodular_l")
         "L of the Smith normal form is a product of row swaps and row additions, determinant +-1, hence invertible",
       ex .index "snf . d [ ( 0 , 0 ) ]" 1 .matrixLiteralIndex "snf = SNF::new(&self.linear) with linear : Matrix3<i32>, so d is 3x3",
       ex .index "snf . d [ ( 1 , 1 ) ]" 1 .matrixLiteralIndex "d is 3x3",
       ex .index "snf . d [ ( 2 , 2 ) ]" 1 .matrixLiteralIndex "d is 3x3"
     ]⟩,
-    ⟨"Transformation::transform_magnetic_cell", [
+    ⟨"Transformation::transform_magnetic_cell", 128809554265345, [
       ex .index "magnetic_cell . magnetic_moments [ i ]" 1
         (.loopBounded "i ranges over site_mapping, whose entries are the enumerate() indices of cell.positions pushed by transform_cell")
         "entries of site_mapping are < cell.num_atoms() = magnetic_moments.len() (MagneticCell keeps the lengths equal)"
@@ -144,69 +144,70 @@ def tBase : List FileTable := [
 
 def tData : List FileTable := [
   ⟨"data/centering.rs", [
-    ⟨"Centering::inverse", [
+    ⟨"Centering::inverse", 255741343803029, [
       ex .unwrap "self . linear ( ) . map ( | e | e as f64 ) . try_inverse ( ) . unwrap ( )" 1 .tableDerived
         "Centering::linear returns one of seven constant matrices with determinant 1, 2, 2, 2, 2, 3, 4 (P, A, B, C, I, R, F); none is singular"
     ]⟩
   ]⟩,
   ⟨"data/hall_symbol.rs", [
-    ⟨"HallSymbol::new", [
+    ⟨"HallSymbol::new", 142164069481022, [
       ex .call "e . rem_euclid ( 1.0 )" 1 (.notAPanic "f64::rem_euclid") "float remainder (entries of a Vector3<f64>)"
     ]⟩,
-    ⟨"HallSymbol::traverse", [
+    ⟨"HallSymbol::traverse", 99132202202245, [
       ex .unwrap "queue . pop_front ( ) . unwrap ( )" 1 (.checkedByGuard "while !queue.is_empty()") "first statement of the loop body"
     ]⟩,
-    ⟨"MagneticHallSymbol::new", [
+    ⟨"MagneticHallSymbol::new", 89382264247001, [
       ex .call "e . rem_euclid ( 1.0 )" 1 (.notAPanic "f64::rem_euclid") "float remainder"
     ]⟩,
-    ⟨"MagneticHallSymbol::traverse", [
+    ⟨"MagneticHallSymbol::traverse", 16534862466919, [
       ex .unwrap "queue . pop_front ( ) . unwrap ( )" 1 (.checkedByGuard "while !queue.is_empty()") "first statement of the loop body"
     ]⟩,
-    ⟨"parse", [
-      ex .index "tokens [ 0 ]" 1 (.knownFinding "panic:hall_symbol.rs:parse:empty-string")
+    ⟨"parse", 273066413399593, [
+      ex .index "tokens [ 0 ]" 1 (.knownFinding "panic:hall_symbol.rs:parse:index-oob")
         "tokens = split_whitespace of the user's string: empty for \"\" or an all-blank string; HallSymbol::new(\"\") and MagneticHallSymbol::new(\"\") panic (index out of bounds)",
       ex .index "tokens [ cursor ]" 2 (.loopBounded "for cursor in 1..tokens.len()") "both uses are inside that loop; tokens is not modified"
     ]⟩,
-    ⟨"parse_lattice", [
-      ex .unwrap "token . chars ( ) . nth ( pos ) . unwrap ( )" 2 (.knownFinding "panic:hall_symbol.rs:parse_lattice:lone-minus")
+    ⟨"parse_lattice", 157716604200391, [
+      ex .unwrap "token . chars ( ) . nth ( pos ) . unwrap ( )" 2 (.knownFinding "panic:hall_symbol.rs:parse_lattice:unwrap-none")
         "two textually identical sites: the first (pos = 0) is safe because split_whitespace yields non-empty tokens; the second runs with pos = 1 after a leading '-' and panics on the token \"-\" (HallSymbol::new(\"-\"), \"- 2\")"
     ]⟩,
-    ⟨"parse_origin_shift", [
+    ⟨"parse_origin_shift", 98069336361831, [
       ex .sub "s . len ( ) - 1" 2 (.constNonempty) "s is a token produced by split_whitespace, never empty, so len() >= 1",
-      ex .unwrap "s . chars ( ) . nth ( s . len ( ) - 1 ) . unwrap ( )" 1 (.knownFinding "panic:hall_symbol.rs:parse_origin_shift:non-ascii-token")
+      ex .sub "s . len ( ) - 1" 1 (.constNonempty) "(form after the proposed parser fix, which tests `s.ends_with(')')` instead of `nth(s.len() - 1)`) s is a token produced by split_whitespace, never empty, so len() >= 1",
+      ex .unwrap "s . chars ( ) . nth ( s . len ( ) - 1 ) . unwrap ( )" 1 (.knownFinding "panic:hall_symbol.rs:parse_origin_shift:unwrap-none")
         "nth takes a char index but s.len() is the byte length: for a token with a multi-byte character (\"P 1 (0 0 \\u{e9}\") there are fewer chars than bytes and nth returns None",
       ex .index "s [ .. s . len ( ) - 1 ]" 1 (.checkedByGuard "s.chars().nth(s.len() - 1).unwrap() == ')'")
         "reached only when the char with index len()-1 exists, which forces chars == bytes (all ASCII), so len()-1 is a char boundary",
       ex .index "tokens [ 0 ]" 1 (.checkedByGuard "if tokens.len() != 3 { return None; }") "literal below 3",
       ex .index "tokens [ 1 ]" 1 (.checkedByGuard "if tokens.len() != 3 { return None; }") "literal below 3",
       ex .index "tokens [ 2 ]" 1 (.checkedByGuard "if tokens.len() != 3 { return None; }") "literal below 3",
-      ex .unwrap "tokens [ 0 ] . parse :: < f64 > ( ) . unwrap ( )" 1 (.knownFinding "panic:hall_symbol.rs:parse_origin_shift:non-numeric-component")
+      ex .unwrap "tokens [ 0 ] . parse :: < f64 > ( ) . unwrap ( )" 1 (.knownFinding "panic:hall_symbol.rs:parse_origin_shift:unwrap-err")
         "the three components of \"(vx vy vz)\" are not validated: HallSymbol::new(\"P 2 (a b c)\") panics in f64 parsing",
-      ex .unwrap "tokens [ 1 ] . parse :: < f64 > ( ) . unwrap ( )" 1 (.knownFinding "panic:hall_symbol.rs:parse_origin_shift:non-numeric-component")
+      ex .unwrap "tokens [ 1 ] . parse :: < f64 > ( ) . unwrap ( )" 1 (.knownFinding "panic:hall_symbol.rs:parse_origin_shift:unwrap-err")
         "as for tokens[0] (\"P 2 (0 b 0)\")",
-      ex .unwrap "tokens [ 2 ] . parse :: < f64 > ( ) . unwrap ( )" 1 (.knownFinding "panic:hall_symbol.rs:parse_origin_shift:non-numeric-component")
+      ex .unwrap "tokens [ 2 ] . parse :: < f64 > ( ) . unwrap ( )" 1 (.knownFinding "panic:hall_symbol.rs:parse_origin_shift:unwrap-err")
         "as for tokens[0] (\"P 2 (0 0 c)\"; also \"P 2 (0 0 (0)\" style leftovers of the parenthesis trimming)"
     ]⟩,
-    ⟨"parse_operation", [
-      ex .unwrap "token . chars ( ) . nth ( pos ) . unwrap ( )" 6 (.knownFinding "panic:hall_symbol.rs:parse_operation:truncated-token")
+    ⟨"parse_operation", 142949255151752, [
+      ex .unwrap "token . chars ( ) . nth ( pos ) . unwrap ( )" 6 (.knownFinding "panic:hall_symbol.rs:parse_operation:unwrap-none")
         "six textually identical sites. pos = 0 is safe (non-empty token). The read of <nfold> runs with pos = 1 after a leading '-' and panics on the token \"-\" (\"P -\"). The later reads are guarded by pos < token.len(), but that is the byte length while nth counts chars: after a multi-byte first character (\"P \\u{e9}\") the guard passes and nth returns None",
       ex .unwrap "c . to_string ( ) . parse :: < f64 > ( ) . unwrap ( )" 1 (.checkedByGuard "if \"123456\".contains(c)") "c is one ASCII digit 1..6",
       ex .unwrap "nfold . parse :: < f64 > ( ) . unwrap ( )" 1 (.checkedByGuard "parse_rotation_matrix(format!(\"{}{}\", nfold, axis))? returned Some")
         "nfold is a one-character string and every pattern of parse_rotation_matrix starts with one of the digits 1, 2, 3, 4, 6, so nfold is that digit",
-      ex .assert "assert_eq ! ( pos , token . len ( ) )" 1 (.knownFinding "panic:hall_symbol.rs:parse_operation:trailing-characters")
+      ex .assert "assert_eq ! ( pos , token . len ( ) )" 1 (.knownFinding "panic:hall_symbol.rs:parse_operation:assert")
         "the scanning loop breaks at the first character it does not know and the assertion then fails: HallSymbol::new(\"P 2q\"), \"P 2x!\""
     ]⟩,
-    ⟨"purify_translation_mod1", [
+    ⟨"purify_translation_mod1", 43512193624281, [
       ex .call "eint . rem_euclid ( MAX_DENOMINATOR )" 1 (.checkedByGuard "const MAX_DENOMINATOR: i32 = 12")
         "i32::rem_euclid panics only for a divisor 0 (or MIN % -1); the divisor is the constant 12"
     ]⟩
   ]⟩,
   ⟨"data/magnetic_hall_symbol_database.rs", [
-    ⟨"MagneticHallSymbolEntry::construct_type", [
+    ⟨"MagneticHallSymbolEntry::construct_type", 173222104288482, [
       ex .unwrap "get_magnetic_space_group_type ( self . uni_number ) . unwrap ( )" 1 .tableDerived
         "entries come from MAGNETIC_HALL_SYMBOL_DATABASE (private const fn new; magnetic_hall_symbol_entry clones table rows) whose uni_number fields are 1..=1651, the index range of MAGNETIC_SPACE_GROUP_TYPES (LOW CONFIDENCE as a public method: the fields are pub, a hand-built entry with another uni_number panics)"
     ]⟩,
-    ⟨"MagneticHallSymbolEntry::reference_hall_number", [
+    ⟨"MagneticHallSymbolEntry::reference_hall_number", 261949365317727, [
       ex .unwrap "get_magnetic_space_group_type ( self . uni_number ) . unwrap ( )" 1 .tableDerived
         "as in construct_type: uni_number of a table row is in 1..=1651",
       ex .unwrap "Setting :: Standard . hall_number ( number ) . unwrap ( )" 1 .tableDerived
@@ -214,7 +215,7 @@ def tData : List FileTable := [
     ]⟩
   ]⟩,
   ⟨"data/magnetic_space_group.rs", [
-    ⟨"<static ITA_NUMBER_TO_UNI_NUMBERS>", [
+    ⟨"<static ITA_NUMBER_TO_UNI_NUMBERS>", 236736337436651, [
       ex .index "MAGNETIC_SPACE_GROUP_TYPES [ uni_number - 1 ]" 1 (.loopBounded "for uni_number in 1..=NUM_MAGNETIC_SPACE_GROUP_TYPES")
         "the table is declared [MagneticSpaceGroupType; NUM_MAGNETIC_SPACE_GROUP_TYPES]; index 0..=1650",
       ex .index "MAGNETIC_SPACE_GROUP_TYPES [ uni_number ]" 1 (.checkedByGuard "(uni_number == NUM_MAGNETIC_SPACE_GROUP_TYPES) || ..")
@@ -224,11 +225,11 @@ def tData : List FileTable := [
     ]⟩
   ]⟩,
   ⟨"data/point_group.rs", [
-    ⟨"PointGroupRepresentative::from_geometric_crystal_class", [
+    ⟨"PointGroupRepresentative::from_geometric_crystal_class", 176356989887091, [
       ex .unwrap "HallSymbol :: from_hall_number ( hall_number ) . unwrap ( )" 1 .tableDerived
         "hall_number is one of 32 literals in 1..=530 and every Hall symbol string of HALL_SYMBOL_DATABASE parses (dead code outside tests)"
     ]⟩,
-    ⟨"PointGroupRepresentative::from_arithmetic_crystal_class", [
+    ⟨"PointGroupRepresentative::from_arithmetic_crystal_class", 131958982843972, [
       ex .panic "panic ! ( \"Invalid arithmetic number\" )" 1
         (.callerValidated "correction_transformation_matrices, match_with_cubic_point_group, match_with_point_group")
         "callers pass the arithmetic_number field of a HALL_SYMBOL_DATABASE / ARITHMETIC_CRYSTAL_CLASS_DATABASE row (1..=73), all of which have an arm; the type is crate-private",
@@ -237,7 +238,7 @@ def tData : List FileTable := [
     ]⟩
   ]⟩,
   ⟨"data/wyckoff.rs", [
-    ⟨"WyckoffPositionSpace::new", [
+    ⟨"WyckoffPositionSpace::new", 20745372023989, [
       ex .assert "assert_eq ! ( terms . len ( ) , 3 )" 1 .tableDerived
         "crate-private; the only caller (assign_wyckoff_position) passes the `coordinates` field of WYCKOFF_DATABASE rows; all 3467 strings have three comma-separated terms matching the EBNF in the source (checked mechanically when this record was written)",
       ex .assert "assert ! ( ! token . is_empty ( ) )" 1 .tableDerived
@@ -263,7 +264,7 @@ def tData : List FileTable := [
 
 def tIdentify : List FileTable := [
   ⟨"identify/magnetic_space_group.rs", [
-    ⟨"MagneticSpaceGroup::new", [
+    ⟨"MagneticSpaceGroup::new", 136183573241736, [
       ex .unwrap "get_magnetic_space_group_type ( uni_number ) . unwrap ( )" 1 .tableDerived
         "uni_number iterates a range of ITA_NUMBER_TO_UNI_NUMBERS, all of whose bounds are in 1..=1651",
       ex .unwrap "magnetic_hall_symbol_entry ( uni_number ) . unwrap ( )" 1 .tableDerived
@@ -277,17 +278,17 @@ def tIdentify : List FileTable := [
       ex .unreachable "unreachable ! ( )" 1 (.checkedByGuard "Type1 / Type2 returned a few lines above; ConstructType has four variants")
         "only Type3 and Type4 reach the match"
     ]⟩,
-    ⟨"MagneticSpaceGroup::reference_space_group", [
+    ⟨"MagneticSpaceGroup::reference_space_group", 262235916213267, [
       ex .unwrap "magnetic_hall_symbol_entry ( self . uni_number ) . unwrap ( )" 1 .tableDerived
         "self is built only by MagneticSpaceGroup::new with a uni_number taken from uni_number_range (crate-private type)",
       ex .unwrap "SpaceGroup :: from_hall_number_and_transformation ( ref_hall_number , self . transformation . clone ( ) , ) . unwrap ( )" 1 .tableDerived
         "ref_hall_number is an entry of STANDARD_HALL_NUMBERS (1..=530), for which hall_symbol_entry is Some"
     ]⟩,
-    ⟨"MagneticSpaceGroup::match_prim_mag_operations", [
+    ⟨"MagneticSpaceGroup::match_prim_mag_operations", 249141233939428, [
       ex .call "hm_translation . insert ( ( mops1 . operation . rotation . clone ( ) , mops1 . time_reversal ) , mops1 . operation . translation , )" 1
         (.notAPanic "HashMap::insert") "hm_translation = HashMap::new()"
     ]⟩,
-    ⟨"identify_reference_space_group", [
+    ⟨"identify_reference_space_group", 195245217465983, [
       ex .div "prim_mag_operations . len ( ) % prim_xsg . len ( )" 1 (.invariant "identity_without_time_reversal_in_magnetic_operations")
         "prim_xsg (operations without time reversal) is non-empty: PrimitiveMagneticSymmetrySearch tries the candidate (E, 0), whose permutation is the identity and which keeps every moment, with time_reversal = false (LOW CONFIDENCE: fails if two same-species sites coincide exactly with different moments)",
       ex .div "prim_mag_operations . len ( ) % fsg . len ( )" 1 (.invariant "identity_without_time_reversal_in_magnetic_operations")
@@ -296,59 +297,59 @@ def tIdentify : List FileTable := [
         "same divisor as the remainder above",
       ex .div "fsg . len ( ) / prim_xsg . len ( )" 1 (.checkedByGuard "prim_mag_operations.len() % prim_xsg.len() evaluated first") "same divisor"
     ]⟩,
-    ⟨"primitive_maximal_space_subgroup_from_magnetic_space_group", [
+    ⟨"primitive_maximal_space_subgroup_from_magnetic_space_group", 194182770453901, [
       ex .index "contained [ i ]" 1 (.loopBounded "for (i, mops) in prim_mag_operations.iter().enumerate(); contained = vec![false; prim_mag_operations.len()]") "same length"
     ]⟩,
-    ⟨"family_space_group_from_magnetic_space_group", [
+    ⟨"family_space_group_from_magnetic_space_group", 21931305225513, [
       ex .call "hm_translation . insert ( mops . operation . rotation . clone ( ) , mops . operation . translation )" 1 (.notAPanic "HashMap::insert") "hm_translation = HashMap::new()",
       ex .index "contained [ i ]" 1 (.loopBounded "for (i, mops) in prim_mag_operations.iter().enumerate(); contained = vec![false; prim_mag_operations.len()]") "same length"
     ]⟩,
-    ⟨"db_reference_space_group_primitive", [
+    ⟨"db_reference_space_group_primitive", 85039341237514, [
       ex .unwrap "hall_symbol_entry ( entry . reference_hall_number ( ) ) . unwrap ( )" 1 .tableDerived "reference_hall_number returns an entry of STANDARD_HALL_NUMBERS (1..=530)",
       ex .unwrap "HallSymbol :: new ( & ref_hall_entry . hall_symbol ) . unwrap ( )" 1 .tableDerived "every Hall symbol string of HALL_SYMBOL_DATABASE parses"
     ]⟩
   ]⟩,
   ⟨"identify/point_group.rs", [
-    ⟨"PointGroup::new", [
+    ⟨"PointGroup::new", 4256794606524, [
       ex .unreachable "unreachable ! ( )" 1 (.checkedByGuard "CrystalSystem::from_geometric_crystal_class maps exactly C1 and Ci to Triclinic")
         "the inner match is entered only for CrystalSystem::Triclinic and has arms for C1 and Ci"
     ]⟩,
-    ⟨"match_with_cubic_point_group", [
+    ⟨"match_with_cubic_point_group", 253472337332771, [
       ex .unwrap "arithmetic_crystal_class_candidates . iter ( ) . find ( | ( _ , point_group_db ) | point_group_db . centering = = Centering :: P ) . unwrap ( )" 1 .tableDerived
         "each cubic geometric class T, Th, O, Td, Oh has a P arithmetic class in ARITHMETIC_CRYSTAL_CLASS_DATABASE (59 23P, 62 m-3P, 65 432P, 68 -43mP, 71 m-3mP) whose representative Hall symbol is P-centred",
       ex .assert "assert_eq ! ( trans_mat_basis . len ( ) , 1 )" 1 (.invariant "cubic_intertwiner_dimension_one")
         "sylvester3 returns a basis of { P : A_i P = P B_i } when that space is non-zero; the B_i generate a cubic point group, which acts absolutely irreducibly on C^3, so a non-zero P is invertible and the space is End(B) = scalars (Schur): dimension 1",
       ex .index "trans_mat_basis [ 0 ]" 1 (.checkedByGuard "assert_eq!(trans_mat_basis.len(), 1)") "literal below 1"
     ]⟩,
-    ⟨"iter_trans_mat_basis", [
+    ⟨"iter_trans_mat_basis", 210917677640536, [
       ex .index "rotation_types [ i ]" 1 (.callerValidated "PointGroup::new (via match_with_*), integral_normalizer, find_conjugator_type4")
         "i < order = prim_rotations.len() and every caller computes rotation_types by mapping identify_rotation_type over the same prim_rotations",
       ex .index "prim_rotations [ i ]" 1 (.loopBounded "pivot entries are drawn from candidates, filtered out of 0..order with order = prim_rotations.len()") "index below the length"
     ]⟩,
-    ⟨"iter_unimodular_trans_mat", [
+    ⟨"iter_unimodular_trans_mat", 187631815251694, [
       ex .index "comb [ i ]" 1 (.loopBounded "comb comes from (0..trans_mat_basis.len()).map(..).multi_cartesian_product(); i enumerates trans_mat_basis")
         "each comb has exactly trans_mat_basis.len() entries"
     ]⟩
   ]⟩,
   ⟨"identify/rotation_type.rs", [
-    ⟨"identify_rotation_type", [
+    ⟨"identify_rotation_type", 89003444043332, [
       ex .unreachable "unreachable ! ( \"Unknown rotation type\" )" 1 (.invariant "finite_order_rotation_type")
         "every rotation that reaches this fn is an element of a finite subgroup of GL3(Z): the Bravais group accepted by search_bravais_group (traverse returned exactly the candidate set, so it is closed), subsets / conjugates of it, or a group generated by a database Hall symbol; an integer matrix of finite order has order 1,2,3,4,6 and (trace, det) is one of the ten listed pairs"
     ]⟩
   ]⟩,
   ⟨"identify/space_group.rs", [
-    ⟨"correction_transformation_matrices", [
+    ⟨"correction_transformation_matrices", 221683953252040, [
       ex .unwrap "arithmetic_crystal_class_entry ( arithmetic_number ) . unwrap ( )" 1 .tableDerived
         "the only caller passes entry.arithmetic_number of a HALL_SYMBOL_DATABASE row (1..=73)"
     ]⟩,
-    ⟨"match_origin_shift", [
+    ⟨"match_origin_shift", 165394737350341, [
       ex .call "hm_translations . insert ( operation . rotation , operation . translation )" 1 (.notAPanic "HashMap::insert") "hm_translations = HashMap::new()",
       ex .index "a [ ( 3 * k + i , j ) ]" 1 (.loopBounded "k enumerates db_prim_generators, i and j in 0..3; a = zeros(3 * db_prim_generators.len()) x 3") "3k+i < 3 len, j < 3",
       ex .index "ak [ ( i , j ) ]" 1 (.loopBounded "i, j in 0..3") "ak = rotation - Matrix3::identity() : Matrix3<i32>",
       ex .index "b [ 3 * k + i ]" 1 (.loopBounded "k enumerates db_prim_generators, i in 0..3; b = zeros(3 * db_prim_generators.len())") "3k+i < 3 len",
       ex .index "bk [ i ]" 1 (.loopBounded "i in 0..3") "bk is a difference of Translation = Vector3<f64>"
     ]⟩,
-    ⟨"solve_mod1", [
+    ⟨"solve_mod1", 38069551885426, [
       ex .index "snf . d [ ( i , i ) ]" 2 (.callerValidated "match_origin_shift (from SpaceGroup::new, integral_normalizer, find_conjugator_type4)")
         "i in 0..3 and d has the shape of a, 3k x 3 with k = number of generators; every caller passes k >= 1 (table Hall symbols have at least one N symbol; db_reference_space_group_primitive pushes the identity when the list is empty), so d has at least 3 rows",
       ex .index "lb [ i ]" 3 (.callerValidated "match_origin_shift") "lb = L b has 3k >= 3 entries (see above)",
@@ -359,7 +360,7 @@ def tIdentify : List FileTable := [
 
 def tLib : List FileTable := [
   ⟨"lib.rs", [
-    ⟨"MoyoDataset::new", [
+    ⟨"MoyoDataset::new", 28014643990842, [
       ex .index "std_cell . site_mapping [ i ]" 1 (.loopBounded "i enumerates std_cell.wyckoffs")
         "assign_wyckoffs returns one Wyckoff position per site of std_cell.cell and site_mapping has one entry per site of the same cell (Transformation::transform_cell)",
       ex .index "std_prim_wyckoffs [ j ]" 2 (.loopBounded "j = std_cell.site_mapping[i], an index into the primitive standardized cell")
@@ -373,7 +374,7 @@ def tLib : List FileTable := [
       ex .unwrap "arithmetic_crystal_class_entry ( hall_symbol . arithmetic_number ) . unwrap ( )" 1 .tableDerived
         "arithmetic_number of a HALL_SYMBOL_DATABASE row is in 1..=73"
     ]⟩,
-    ⟨"MoyoMagneticDataset::new", [
+    ⟨"MoyoMagneticDataset::new", 256648912627864, [
       ex .unwrap "prim_mag_cell . linear . map ( | e | e as f64 ) . try_inverse ( ) . unwrap ( )" 1 (.invariant "primitive_linear_det_is_number_of_translations")
         "linear = unimodular^-1 * trans_mat with det trans_mat == translations.len() >= 1 (PrimitiveMagneticCell::new)"
     ]⟩
@@ -382,7 +383,7 @@ def tLib : List FileTable := [
 
 def tMath : List FileTable := [
   ⟨"math/delaunay.rs", [
-    ⟨"delaunay_reduce", [
+    ⟨"delaunay_reduce", 221651433623815, [
       ex .index "superbase [ i ]" 1 (.loopBounded "for i in 0..3") "superbase() pushes the 3 columns and their negated sum: 4 entries",
       ex .index "superbase [ j ]" 1 (.loopBounded "for j in i + 1..4") "4 entries",
       ex .index "norms [ i ]" 1 (.loopBounded "i, j are elements of argsort = (0..7)") "norms is collected from the 7-element array basis_candidates",
@@ -400,22 +401,22 @@ def tMath : List FileTable := [
     ]⟩
   ]⟩,
   ⟨"math/elementary.rs", [
-    ⟨"swapping_column_matrix", [
+    ⟨"swapping_column_matrix", 146565882374424, [
       ex .index "trans_mat [ ( col1 , col2 ) ]" 1 (.callerValidated "minkowski_reduce_greedy (j, j+1 <= rank-1 <= 2, dim U3), HNF::new (s, pivot < n)")
         "crate-private; both arguments are below dim at every call site; trans_mat is dim x dim",
       ex .index "trans_mat [ ( col2 , col1 ) ]" 1 (.callerValidated "minkowski_reduce_greedy, HNF::new") "as above",
       ex .index "trans_mat [ ( i , i ) ]" 1 (.loopBounded "for i in 0..dim.value()") "trans_mat is dim x dim"
     ]⟩,
-    ⟨"adding_column_matrix", [
+    ⟨"adding_column_matrix", 91020518493404, [
       ex .index "trans_mat [ ( col1 , col2 ) ]" 1 (.callerValidated "delaunay_reduce (i, k in 0..3, dim U3), HNF::new (s, j < n)")
         "the write happens for i == col1 inside 0..dim, so col1 < dim; col2 < dim at both call sites"
     ]⟩,
-    ⟨"changing_column_sign_matrix", [
+    ⟨"changing_column_sign_matrix", 50133224267615, [
       ex .index "trans_mat [ ( col , col ) ]" 1 (.callerValidated "delaunay_reduce (i in 0..3, dim U3), HNF::new (s < n)") "col < dim at both call sites"
     ]⟩
   ]⟩,
   ⟨"math/hnf.rs", [
-    ⟨"HNF::new", [
+    ⟨"HNF::new", 56250396960938, [
       ex .index "h [ ( s , j ) ]" 4 (.loopBounded "s in 0..m; j in s..n (closures) or 0..n (for)") "h has the shape (m, n) of basis",
       ex .unwrap "( s .. n . value ( ) ) . filter ( | & j | h [ ( s , j ) ] ! = 0 ) . min_by_key ( | & j | h [ ( s , j ) ] . abs ( ) ) . unwrap ( )" 1
         (.checkedByGuard "if (s..n.value()).all(|j| h[(s, j)] == 0) { break; }") "the row has a non-zero entry among the columns s..n, so the filtered range is non-empty",
@@ -432,7 +433,7 @@ def tMath : List FileTable := [
     ]⟩
   ]⟩,
   ⟨"math/integer_system.rs", [
-    ⟨"IntegerLinearSystem::new", [
+    ⟨"IntegerLinearSystem::new", 253585074181263, [
       ex .index "lb [ ( i , 0 ) ]" 2 (.loopBounded "for i in 0..rank with rank <= min(m, n)") "lb = L b has m rows",
       ex .index "snf . d [ ( i , i ) ]" 2 (.loopBounded "for i in 0..rank with rank <= min(m, n)") "d is m x n",
       ex .div "lb [ ( i , 0 ) ] % snf . d [ ( i , i ) ]" 1 (.invariant "snf_nonzero_diagonal_is_prefix")
@@ -442,7 +443,7 @@ def tMath : List FileTable := [
       ex .call "snf . r . columns ( rank , n . value ( ) - rank )" 1 (.loopBounded "rank <= min(m, n) <= n") "r is n x n: first column rank, count n - rank",
       ex .sub "n . value ( ) - rank" 1 (.invariant "Moyo.C15.snf_rank") "rank = number of non-zero diagonal entries of an m x n matrix <= n"
     ]⟩,
-    ⟨"sylvester3", [
+    ⟨"sylvester3", 10439475926787, [
       ex .assert "assert_eq ! ( size , b . len ( ) )" 1 (.callerValidated "iter_trans_mat_basis")
         "a = pivot.iter().map(..).collect() has one entry per element of candidates, which has one entry per generator in b",
       ex .index "a [ k ]" 1 (.loopBounded "for k in 0..size, size = a.len()") "in range",
@@ -461,7 +462,7 @@ def tMath : List FileTable := [
     ]⟩
   ]⟩,
   ⟨"math/minkowski.rs", [
-    ⟨"minkowski_reduce_greedy", [
+    ⟨"minkowski_reduce_greedy", 140217623608217, [
       ex .sub "rank - 1" 16 (.callerValidated "minkowski_reduce (rank = 3) and the recursion (rank - 1 after the early return for rank == 1)")
         "rank is 3 or 2 whenever the subtraction is evaluated",
       ex .sub "rank - 2" 1 (.callerValidated "minkowski_reduce (rank = 3) and the recursion") "rank >= 2 past the early return",
@@ -483,7 +484,7 @@ def tMath : List FileTable := [
       ex .index "add_mat [ ( i , rank - 1 ) ]" 1 (.loopBounded "for i in 0..(rank - 1)") "add_mat is 3x3",
       ex .index "coeffs_argmin [ i ]" 1 (.loopBounded "for i in 0..(rank - 1)") "coeffs_argmin has rank - 1 entries (zeros(rank - 1) or a clone of coeffs)"
     ]⟩,
-    ⟨"is_minkowski_reduced", [
+    ⟨"is_minkowski_reduced", 204773205298832, [
       ex .index "norms [ 0 ]" 1 (.fixedSize "norms = basis.column_iter().map(..).collect_vec() of a Matrix3: 3 entries") "literal below 3",
       ex .index "norms [ 1 ]" 3 (.fixedSize "norms has 3 entries") "literal below 3",
       ex .index "norms [ 2 ]" 2 (.fixedSize "norms has 3 entries") "literal below 3",
@@ -493,14 +494,14 @@ def tMath : List FileTable := [
     ]⟩
   ]⟩,
   ⟨"math/niggli.rs", [
-    ⟨"niggli_reduce", [
+    ⟨"niggli_reduce", 266337810000508, [
       ex .unreachable "unreachable ! ( )" 1 (.checkedByGuard "while step <= 8, step starts at 1 and is only incremented or reset to 1") "the match has arms 1..=8"
     ]⟩,
-    ⟨"step4", [
+    ⟨"step4", 280719829293095, [
       ex .unreachable "unreachable ! ( )" 1 (.invariant "niggli_step4_p_assigned")
         "the match runs only when i*j*k == -1 under sign_xi*sign_eta*sign_zeta <= 0; if no sign were 0 (p still -1) an odd number of signs is negative, so 0 or 2 are positive and i*j*k = +1; hence some sign is 0 and p is 0, 1 or 2"
     ]⟩,
-    ⟨"NiggliParameters::new", [
+    ⟨"NiggliParameters::new", 184292582804019, [
       ex .index "metric_tensor [ ( 1 , 2 ) ]" 1 .matrixLiteralIndex "metric_tensor = basis.transpose() * basis with basis : &Matrix3<f64>",
       ex .index "metric_tensor [ ( 2 , 0 ) ]" 1 .matrixLiteralIndex "3x3",
       ex .index "metric_tensor [ ( 0 , 1 ) ]" 1 .matrixLiteralIndex "3x3",
@@ -510,7 +511,7 @@ def tMath : List FileTable := [
     ]⟩
   ]⟩,
   ⟨"math/snf.rs", [
-    ⟨"SNF::new", [
+    ⟨"SNF::new", 273154246934141, [
       ex .index "d [ ( i , j ) ]" 4 (.loopBounded "i in s..m or 0..m, j in s..n or 0..n") "d has the shape (m, n) of basis",
       ex .call "d . swap_rows ( s , pivot . 0 )" 1 (.loopBounded "pivot.0 in s..m, s < min(m, n)") "d has m rows",
       ex .call "l . swap_rows ( s , pivot . 0 )" 1 (.loopBounded "pivot.0 in s..m, s < min(m, n)") "l is m x m",
@@ -530,7 +531,7 @@ def tMath : List FileTable := [
       ex .assert "assert_eq ! ( d , l . clone ( ) * basis * r . clone ( ) )" 1 (.invariant "Moyo.C15.snf_decomp")
         "every row operation on d is applied to l and every column operation to r; wrapping i32 arithmetic preserves the identity in release builds, overflow-checking builds are C15/C20's subject"
     ]⟩,
-    ⟨"SNF::rank", [
+    ⟨"SNF::rank", 28928109360368, [
       ex .index "self . d [ ( i , i ) ]" 1 (.loopBounded "(0..m.min(n).value()).filter(|&i| ..)") "d is m x n"
     ]⟩
   ]⟩
@@ -538,7 +539,7 @@ def tMath : List FileTable := [
 
 def tSearch : List FileTable := [
   ⟨"search/primitive_cell.rs", [
-    ⟨"PrimitiveCell::new", [
+    ⟨"PrimitiveCell::new", 270307851836450, [
       ex .unwrap "reduced_lattice . basis . column_iter ( ) . map ( | v | v . norm ( ) ) . reduce ( f64 :: min ) . unwrap ( )" 1 .constNonempty
         "basis : Matrix3<f64> has three columns, so reduce sees a non-empty iterator",
       ex .index "pivot_site_indices [ 0 ]" 1 pAtoms
@@ -552,14 +553,14 @@ def tSearch : List FileTable := [
       ex .unwrap "reduced_trans_mat . map ( | e | e as f64 ) . try_inverse ( ) . unwrap ( )" 1 (.invariant "minkowski_trans_mat_unimodular")
         "as above; UnimodularTransformation::from_linear(reduced_trans_mat) already succeeded at the top of the fn"
     ]⟩,
-    ⟨"PrimitiveMagneticCell::new", [
+    ⟨"PrimitiveMagneticCell::new", 31195674796192, [
       ex .index "magnetic_cell . magnetic_moments [ permutation . apply ( i ) ]" 1 (.loopBounded "(0..magnetic_cell.cell.num_atoms()).map(|i| ..)")
         "permutation comes from PrimitiveCell::new(&magnetic_cell.cell): entries are site indices of that cell, and magnetic_moments has one entry per site (MagneticCell::from_cell)",
       ex .div "magnetic_cell . cell . num_atoms ( ) % ( size as usize )" 1 (.checkedByGuard "(size == 0) || ..") "short-circuit",
       ex .unwrap "prim_trans_mat . map ( | e | e as f64 ) . try_inverse ( ) . unwrap ( )" 1 (.invariant "minkowski_trans_mat_unimodular")
         "UnimodularTransformation::from_linear(prim_trans_mat) succeeded just above"
     ]⟩,
-    ⟨"transformation_matrix_from_translations", [
+    ⟨"transformation_matrix_from_translations", 190198793330198, [
       ex .call "OMatrix :: < i32 , U3 , Dyn > :: from_columns ( & columns )" 1 (.fixedSize "columns : Vec<Vector3<i32>> into a 3 x Dyn matrix")
         "with a dynamic column count from_columns accepts any number of columns",
       ex .call "Matrix3 :: < i32 > :: from_columns ( & [ hnf . h . column ( 0 ) , hnf . h . column ( 1 ) , hnf . h . column ( 2 ) ] )" 1 (.fixedSize "array of 3 columns for a Matrix3") "column count matches",
@@ -569,7 +570,7 @@ def tSearch : List FileTable := [
       ex .unwrap "trans_mat_inv . try_inverse ( ) . unwrap ( )" 1 (.invariant "hnf_full_rank_leading_block")
         "the input contains size*I, so it has rank 3 and its column Hermite form has a lower-triangular leading 3x3 block with positive diagonal (Moyo.C15.hnf_lower / hnf_diag_nonneg + rank preservation); divided by size > 0 the determinant is a non-zero product of entries in (0, 1]"
     ]⟩,
-    ⟨"primitive_cell_from_transformation", [
+    ⟨"primitive_cell_from_transformation", 279752974079788, [
       ex .index "orbits [ i ]" 1 (.loopBounded "(0..num_atoms).filter(|&i| ..)") "orbits_from_permutations(num_atoms, ..) returns num_atoms entries",
       ex .index "cell . positions [ inv_perm . apply ( orbit_i ) ]" 1 (.loopBounded "orbit_i < num_atoms; inverse() has entries < size")
         "permutations were computed for this cell (size num_atoms)",
@@ -578,63 +579,63 @@ def tSearch : List FileTable := [
       ex .index "new_numbers [ i ]" 1 (.loopBounded "for (i, &orbit_i) in representatives.iter().enumerate(); new_numbers = vec![0; representatives.len()]") "same length",
       ex .index "cell . numbers [ orbit_i ]" 1 (.loopBounded "orbit_i < num_atoms = positions.len() = numbers.len()") "Cell keeps the lengths equal"
     ]⟩,
-    ⟨"primitive_magnetic_cell_from_transformation", [
+    ⟨"primitive_magnetic_cell_from_transformation", 83436586659817, [
       ex .index "magnetic_cell . magnetic_moments [ i ]" 1 (.loopBounded "i ranges over representatives, a subset of 0..magnetic_cell.cell.num_atoms()") "one moment per site"
     ]⟩,
-    ⟨"site_mapping_from_orbits", [
+    ⟨"site_mapping_from_orbits", 29901060364451, [
       ex .unwrap "mapping . get ( & ri ) . unwrap ( )" 1 (.checkedByGuard "mapping.entry(ri).or_insert_with(..) for every ri of the same slice") "every key was inserted by the preceding loop"
     ]⟩
   ]⟩,
   ⟨"search/primitive_symmetry_search.rs", [
-    ⟨"PrimitiveSymmetrySearch::new", [
+    ⟨"PrimitiveSymmetrySearch::new", 153707483175907, [
       ex .call "primitive_cell . lattice . basis . column ( 0 )" 1 .matrixLiteralIndex "basis : Matrix3<f64>",
       ex .index "pivot_site_indices [ 0 ]" 1 pAtoms "as in PrimitiveCell::new: non-empty when the cell has an atom",
       ex .index "primitive_cell . positions [ * dst ]" 1 (.loopBounded "dst iterates pivot_site_indices(&primitive_cell.numbers)") "numbers and positions have the same length",
       ex .index "rotated_positions [ src ]" 1 (.loopBounded "src = pivot_site_indices[0]") "rotated_positions is a map over primitive_cell.positions: same length",
       ex .unwrap "queue . pop_front ( ) . unwrap ( )" 1 (.checkedByGuard "while !queue.is_empty()") "first statement of the loop body"
     ]⟩,
-    ⟨"PrimitiveSymmetrySearch::check_closure", [
+    ⟨"PrimitiveSymmetrySearch::check_closure", 86906185754990, [
       ex .call "translations_map . insert ( operation . rotation , operation . translation )" 1 (.notAPanic "HashMap::insert") "translations_map = HashMap::new()",
-      ex .index "translations_map [ & ops12 . rotation ]" 1 (.invariant "check_closure_key_present")
-        "operations is the set visited by the BFS in new(): it contains E and R*g for every visited R and every generator g; being a finite subset of the (finite) Bravais group that is closed under right multiplication by the generators and contains them, its rotation set is a group, so the rotation of every product is a key"
+      ex .index "translations_map [ & ops12 . rotation ]" 1 (.invariant "Moyo.C08.check_closure_key_present")
+        "Lean theorem about the loop model (Moyo/Props/C08.lean): operations is the set visited by the BFS in new(): it contains E and R*g for every visited R and every generator g; being a finite subset of the (finite) Bravais group that is closed under right multiplication by the generators and contains them, its rotation set is a group, so the rotation of every product is a key"
     ]⟩,
-    ⟨"PrimitiveMagneticSymmetrySearch::new", [
+    ⟨"PrimitiveMagneticSymmetrySearch::new", 75246001636682, [
       ex .index "primitive_magnetic_cell . magnetic_moments [ permutation . apply ( i ) ]" 1 (.loopBounded "(0..primitive_magnetic_cell.num_atoms()).map(|i| ..)")
         "permutation comes from solve_correspondence on a kd-tree of the same cell: entries are its site indices; one moment per site"
     ]⟩,
-    ⟨"PrimitiveMagneticSymmetrySearch::check_closure", [
+    ⟨"PrimitiveMagneticSymmetrySearch::check_closure", 81992734863630, [
       ex .call "translations_map . insert ( ( mops . operation . rotation , mops . time_reversal ) , mops . operation . translation , )" 1 (.notAPanic "HashMap::insert") "translations_map = HashMap::new()",
       ex .index "translations_map [ & ( mops12 . operation . rotation , mops12 . time_reversal ) ]" 1
-        (.knownFinding "panic:primitive_symmetry_search.rs:PrimitiveMagneticSymmetrySearch::check_closure:loose-mag-symprec")
+        (.knownFinding "panic:primitive_symmetry_search.rs:PrimitiveMagneticSymmetrySearch::check_closure:missing-key")
         "magnetic_operations is the subset of candidates whose moments match within mag_symprec; nothing makes it closed before this look-up, so with a loose or borderline mag_symprec a product's (rotation, time_reversal) is not a key and HashMap's Index panics"
     ]⟩,
-    ⟨"search_bravais_group", [
+    ⟨"search_bravais_group", 146861528664499, [
       ex .index "candidate_lattice_points [ i ]" 1 (.loopBounded "for (i, &length) in lengths.iter().enumerate(); lengths has one entry per column of a Matrix3")
         "candidate_lattice_points = [vec![], vec![], vec![]]",
       ex .call "Rotation :: from_columns ( & [ Vector3 :: new ( c0 . 0 , c0 . 1 , c0 . 2 ) , Vector3 :: new ( c1 . 0 , c1 . 1 , c1 . 2 ) , Vector3 :: new ( c2 . 0 , c2 . 1 , …" 1
         (.fixedSize "array of 3 Vector3 columns for Rotation = Matrix3<i32>") "column count matches",
       ex .div "48 % rotations . len ( )" 1 (.checkedByGuard "rotations.is_empty() || ..") "short-circuit: evaluated only for a non-empty list"
     ]⟩,
-    ⟨"compare_nondiagonal_matrix_tensor_element", [
+    ⟨"compare_nondiagonal_matrix_tensor_element", 143806631554766, [
       ex .call "basis . column ( col1 )" 2 (.callerValidated "search_bravais_group passes (0, 1), (1, 2), (2, 0)") "basis : &Matrix3<f64>; private fn",
       ex .call "basis . column ( col2 )" 2 (.callerValidated "search_bravais_group passes (0, 1), (1, 2), (2, 0)") "basis : &Matrix3<f64>; private fn"
     ]⟩
   ]⟩,
   ⟨"search/solve.rs", [
-    ⟨"PeriodicKdTree::new", [
+    ⟨"PeriodicKdTree::new", 8486207424905, [
       ex .index "new_position [ 0 ]" 2 .matrixLiteralIndex "new_position = *position with position : &Position = Vector3<f64>",
       ex .index "new_position [ 1 ]" 2 .matrixLiteralIndex "Vector3<f64>",
       ex .index "new_position [ 2 ]" 2 .matrixLiteralIndex "Vector3<f64>"
     ]⟩,
-    ⟨"PeriodicKdTree::nearest", [
+    ⟨"PeriodicKdTree::nearest", 210953867486276, [
       ex .unwrap "NonZero :: new ( 1 ) . unwrap ( )" 1 .constNonempty "the literal 1 is non-zero",
       ex .index "self . indices [ item ]" 1 (.invariant "kdtree_item_is_entry_index")
         "new() pushes one element to `indices` for every element of `entries`, and ImmutableKdTree::new_from_slice(&entries) reports items as positions in that slice"
     ]⟩,
-    ⟨"pivot_site_indices", [
+    ⟨"pivot_site_indices", 119193208223916, [
       ex .unwrap "counter . iter ( ) . min_by_key ( | ( _ , count ) | * count ) . unwrap ( )" 1 pAtoms "counter has one key per species present in numbers; empty only for zero atoms"
     ]⟩,
-    ⟨"solve_correspondence", [
+    ⟨"solve_correspondence", 265804438420559, [
       ex .index "new_positions [ i ]" 1 (.callerValidated "PrimitiveCell::new, PrimitiveSymmetrySearch::new, PrimitiveMagneticSymmetrySearch::new")
         "i < pkdtree.num_sites and every caller builds new_positions by mapping over the positions of the cell the tree was built from (public #[doc(hidden)] helper with an unchecked precondition)",
       ex .index "reduced_cell . numbers [ i ]" 1 (.callerValidated "same callers: reduced_cell is the cell the tree was built from") "i < num_sites = numbers.len()",
@@ -643,7 +644,7 @@ def tSearch : List FileTable := [
       ex .unwrap "v . unwrap ( )" 1 (.checkedByGuard "every iteration either returns None or executes mapping[i] = Some(j)") "after the loop all entries are Some",
       ex .assert "assert_eq ! ( mapping . len ( ) , num_atoms )" 1 (.fixedSize "mapping is collected from a vec![None; num_atoms]") "length preserved by map/collect"
     ]⟩,
-    ⟨"solve_correspondence_naive", [
+    ⟨"solve_correspondence_naive", 215566340403794, [
       ex .index "visited [ j ]" 2 (.loopBounded "for j in 0..num_atoms; visited = vec![false; num_atoms]") "same length",
       ex .index "reduced_cell . numbers [ i ]" 1 (.loopBounded "for i in 0..num_atoms with num_atoms = positions.len() = numbers.len()") "well-formed Cell",
       ex .index "reduced_cell . numbers [ j ]" 1 (.loopBounded "for j in 0..num_atoms") "well-formed Cell",
@@ -652,7 +653,7 @@ def tSearch : List FileTable := [
         "public #[doc(hidden)] benchmarking helper: requires new_positions.len() >= reduced_cell.num_atoms(), not checked; not one of C08's entry points",
       ex .index "mapping [ i ]" 1 (.loopBounded "for i in 0..num_atoms; mapping = vec![0; num_atoms]") "same length"
     ]⟩,
-    ⟨"symmetrize_translation_from_permutation", [
+    ⟨"symmetrize_translation_from_permutation", 211895923250782, [
       ex .index "reduced_cell . positions [ permutation . apply ( i ) ]" 2 (.callerValidated "PrimitiveCell::new, PrimitiveSymmetrySearch::new")
         "i in 0..num_atoms and permutation was returned by solve_correspondence for the same cell: size num_atoms, entries < num_atoms",
       ex .index "reduced_cell . positions [ i ]" 2 (.loopBounded "(0..num_atoms).map(|i| ..) with num_atoms = positions.len()") "in range",
@@ -665,30 +666,30 @@ def tSearch : List FileTable := [
 
 def tSymmetrize : List FileTable := [
   ⟨"symmetrize/magnetic_standardize.rs", [
-    ⟨"StandardizedMagneticCell::new", [
+    ⟨"StandardizedMagneticCell::new", 212234981420392, [
       ex .index "ref_std_cell . site_mapping [ i ]" 1 (.invariant "conventional_cell_has_at_least_as_many_sites")
         "i < number of sites of the primitive magnetic cell; ref_std_cell.site_mapping has one entry per site of the conventional cell, which Transformation::transform_cell builds with num_atoms * |det| >= num_atoms sites",
       ex .index "prim_mag_cell . magnetic_cell . magnetic_moments [ ref_std_cell . site_mapping [ i ] ]" 1
         (.loopBounded "entries of site_mapping are enumerate() indices of the primitive cell's positions")
         "the primitive standardized cell has the sites of prim_mag_cell.magnetic_cell.cell, one moment per site"
     ]⟩,
-    ⟨"StandardizedMagneticCell::reference_symmetry_operations_and_permutations", [
+    ⟨"StandardizedMagneticCell::reference_symmetry_operations_and_permutations", 133842852255515, [
       ex .index "contained [ i ]" 1 (.loopBounded "i enumerates magnetic_symmetry_search.permutations; contained = vec![false; magnetic_operations.len()]")
         "PrimitiveMagneticSymmetrySearch::new pushes one permutation per magnetic operation: equal lengths"
     ]⟩,
-    ⟨"StandardizedMagneticCell::symmetrize_magnetic_moments", [
+    ⟨"StandardizedMagneticCell::symmetrize_magnetic_moments", 95806452430115, [
       ex .index "magnetic_moments [ inv_perm . apply ( i ) ]" 1 (.callerValidated "new_from_ref_cell <- StandardizedMagneticCell::new")
         "i in 0..magnetic_moments.len() and the permutations are those of the symmetry search on the same primitive magnetic cell: size = number of sites = magnetic_moments.len(), entries below it"
     ]⟩
   ]⟩,
   ⟨"symmetrize/standardize.rs", [
-    ⟨"StandardizedCell::standardize_and_symmetrize_cell", [
+    ⟨"StandardizedCell::standardize_and_symmetrize_cell", 159547613857577, [
       ex .unwrap "arithmetic_crystal_class_entry ( entry . arithmetic_number ) . unwrap ( )" 1 .tableDerived "arithmetic_number of a HALL_SYMBOL_DATABASE row is in 1..=73",
       ex .call "permutation_mapping . insert ( * prim_rotation , permutation . clone ( ) )" 1 (.notAPanic "HashMap::insert") "permutation_mapping = HashMap::new()",
       ex .unwrap "permutation_mapping . get ( & ops . rotation ) . unwrap ( )" 1 (.invariant "permutation_mapping_key_present")
         "space_group.transformation was accepted by match_origin_shift, which found every database generator's rotation among the transformed input rotations; the transformed rotations form a group, so they contain the whole database point group, i.e. every rotation of prim_std_operations (triclinic: the extra Niggli conjugation fixes {E} and {E, -E}). LOW CONFIDENCE on the magnetic path, where the transformation was matched against the magnetic Hall symbol and the reference Hall number is looked up separately"
     ]⟩,
-    ⟨"StandardizedCell::assign_wyckoffs", [
+    ⟨"StandardizedCell::assign_wyckoffs", 35215344789117, [
       ex .index "orbits [ i ]" 3 (.loopBounded "i in 0..std_cell.num_atoms(); orbits_in_cell returns site_mapping.len() = std_cell.num_atoms() entries") "same length",
       ex .index "mapping [ i ]" 4 (.loopBounded "i in 0..std_cell.num_atoms() or enumerating std_cell.positions; mapping = vec![0; std_cell.num_atoms()]") "same length",
       ex .index "mapping [ orbits [ i ] ]" 2 (.loopBounded "entries of orbits are earlier site indices (map.entry(key).or_insert(i))") "below num_atoms",
@@ -700,13 +701,13 @@ def tSymmetrize : List FileTable := [
       ex .index "std_cell . positions [ i ]" 1 (.loopBounded "i < num_orbits <= std_cell.num_atoms()") "there are at most as many orbits as sites",
       ex .index "representative_wyckoffs [ mapping [ orbits [ i ] ] ]" 1 (.invariant "assign_wyckoffs_mapping_below_num_orbits") "a value of mapping, below num_orbits"
     ]⟩,
-    ⟨"orbits_in_cell", [
+    ⟨"orbits_in_cell", 191683424663433, [
       ex .index "site_mapping [ i ]" 1 (.loopBounded "for i in 0..num_atoms with num_atoms = site_mapping.len()") "in range",
       ex .index "prim_orbits [ site_mapping [ i ] ]" 1 (.callerValidated "assign_wyckoffs, MoyoDataset::new, MoyoMagneticDataset::new")
         "prim_orbits has prim_num_atoms entries and every caller passes a site_mapping into the primitive cell with that many sites (Transformation::transform_cell / site_mapping_from_orbits)",
       ex .unwrap "map . get ( & key ) . unwrap ( )" 1 (.checkedByGuard "map.entry(key).or_insert(i) on the previous line") "the key was just inserted"
     ]⟩,
-    ⟨"<static UNIMODULAR3_RANGE1>", [
+    ⟨"<static UNIMODULAR3_RANGE1>", 234623675896250, [
       ex .index "v [ 0 ]" 1 (.fixedSize "v is an item of (0..9).map(|_| -1..=1).multi_cartesian_product(): 9 entries") "literal below 9",
       ex .index "v [ 1 ]" 1 (.fixedSize "9 entries") "literal below 9",
       ex .index "v [ 2 ]" 1 (.fixedSize "9 entries") "literal below 9",
@@ -717,24 +718,24 @@ def tSymmetrize : List FileTable := [
       ex .index "v [ 7 ]" 1 (.fixedSize "9 entries") "literal below 9",
       ex .index "v [ 8 ]" 1 (.fixedSize "9 entries") "literal below 9"
     ]⟩,
-    ⟨"standardize_monoclinic_conv_cell", [
+    ⟨"standardize_monoclinic_conv_cell", 218096993649599, [
       ex .index "refined_conv_lattice . lattice_constant ( ) [ 3 .. ]" 1 (.fixedSize "lattice_constant returns [f64; 6]") "3 <= 6",
       ex .unwrap "skewness_lhs . partial_cmp ( skewness_rhs ) . unwrap ( )" 1 pFinite
         "skewness sums |cos| of acos(g_ij / (|a_i| |a_j|)); NaN needs |g_ij| > |a_i||a_j| by rounding (two basis vectors parallel within ~1e-8 rad) or a zero-length vector, i.e. a (numerically) singular lattice (LOW CONFIDENCE)",
       ex .unwrap "candidate_conv_transformations . into_iter ( ) . min_by ( | … skewness_rhs , _ ) | { skewness_lhs . partial_cmp ( skewness_rhs ) . unwrap ( ) } ) . unwrap ( )" 1 .constNonempty
         "UNIMODULAR3_RANGE1 contains the identity (det 1), which keeps the centering translations and the generators exactly, so at least one candidate is pushed"
     ]⟩,
-    ⟨"assign_wyckoff_position", [
+    ⟨"assign_wyckoff_position", 166185624341722, [
       ex .index "snf . d [ ( i , i ) ]" 2 (.loopBounded "for i in 0..3") "snf = SNF::new(&space.linear) with linear : Matrix3<i32>: d is 3x3",
       ex .index "rinvy [ i ]" 1 (.loopBounded "for i in 0..3") "rinvy = Vector3::zeros()",
       ex .index "b [ i ]" 1 (.loopBounded "for i in 0..3") "b = (3x3 matrix) * Vector3"
     ]⟩,
-    ⟨"symmetrize_positions", [
+    ⟨"symmetrize_positions", 224363809801316, [
       ex .index "cell . positions [ inv_perm . apply ( i ) ]" 1 (.callerValidated "standardize_and_symmetrize_cell")
         "i in 0..cell.num_atoms(); the permutations are those of the symmetry search on the primitive cell, and prim_std_cell_tmp has the same sites in the same order (unimodular transform_cell)",
       ex .index "cell . positions [ i ]" 2 (.loopBounded "(0..cell.num_atoms()).map(|i| ..)") "in range"
     ]⟩,
-    ⟨"symmetrize_lattice", [
+    ⟨"symmetrize_lattice", 255836490466642, [
       ex .unwrap "lattice . basis . try_inverse ( ) . unwrap ( )" 2 pNonSingular
         "lattice is the conventional standardized lattice = input lattice times integer matrices of non-zero determinant; None only for an exactly zero f64 determinant (LOW CONFIDENCE for |entries| < ~1e-108)",
       ex .index "r [ ( 0 , 0 ) ]" 1 .matrixLiteralIndex "r = QR::new(<Matrix3<f64>>).r() is 3x3",
@@ -749,13 +750,13 @@ def table : List FileTable := tBase ++ tData ++ tIdentify ++ tLib ++ tMath ++ tS
 
 /-- the known-finding keys this table may refer to (everything else is claimed not to fire) -/
 def allowedFindingKeys : List String := [
-  "panic:hall_symbol.rs:parse:empty-string",
-  "panic:hall_symbol.rs:parse_lattice:lone-minus",
-  "panic:hall_symbol.rs:parse_operation:truncated-token",
-  "panic:hall_symbol.rs:parse_operation:trailing-characters",
-  "panic:hall_symbol.rs:parse_origin_shift:non-numeric-component",
-  "panic:hall_symbol.rs:parse_origin_shift:non-ascii-token",
-  "panic:primitive_symmetry_search.rs:PrimitiveMagneticSymmetrySearch::check_closure:loose-mag-symprec"
+  "panic:hall_symbol.rs:parse:index-oob",
+  "panic:hall_symbol.rs:parse_lattice:unwrap-none",
+  "panic:hall_symbol.rs:parse_operation:unwrap-none",
+  "panic:hall_symbol.rs:parse_operation:assert",
+  "panic:hall_symbol.rs:parse_origin_shift:unwrap-err",
+  "panic:hall_symbol.rs:parse_origin_shift:unwrap-none",
+  "panic:primitive_symmetry_search.rs:PrimitiveMagneticSymmetrySearch::check_closure:missing-key"
 ]
 
 end Moyo.C08Inv.Table
